@@ -1443,6 +1443,18 @@ impl SparqlDatabase {
         partial_results
     }
 
+    /// Encode a term that `clean_ntriples_term` has already reduced to its
+    /// lexical value (IRI without brackets, literal unquoted and unescaped).
+    /// Only quoted triples still carry syntax; everything else is stored
+    /// verbatim, so literal values such as `" a"`, `"<a>"` or `"\"a"` survive.
+    fn encode_cleaned_term(&self, term: &str) -> u32 {
+        if term.starts_with("<<") && term.ends_with(">>") {
+            self.encode_term_star(term)
+        } else {
+            self.dictionary.write().unwrap().encode(term)
+        }
+    }
+
     // Encode triples
     pub fn encode_triples(
         &mut self,
@@ -1452,9 +1464,9 @@ impl SparqlDatabase {
         for triple_strings in non_encoded_triples {
             for (subject, predicate, object) in triple_strings {
                 let main_triple = Triple {
-                    subject: self.encode_term_star(&subject),
-                    predicate: self.encode_term_star(&predicate),
-                    object: self.encode_term_star(&object),
+                    subject: self.encode_cleaned_term(&subject),
+                    predicate: self.encode_cleaned_term(&predicate),
+                    object: self.encode_cleaned_term(&object),
                 };
                 encoded_triples.push(main_triple);
             }
@@ -1485,20 +1497,17 @@ impl SparqlDatabase {
             if let Some((subject, predicate, object, graph)) =
                 self.parse_nquads_line(line_without_dot)
             {
-                match graph {
-                    Some(graph) => {
-                        self.add_quad_parts(&subject, &predicate, &object, &graph);
-                    }
-                    None => {
-                        let quad = Quad {
-                            subject: self.encode_term_star(&subject),
-                            predicate: self.encode_term_star(&predicate),
-                            object: self.encode_term_star(&object),
-                            graph: GraphId::Default,
-                        };
-                        self.add_quad(quad);
-                    }
-                }
+                let graph = match graph {
+                    Some(graph) => GraphId::Named(self.dictionary.write().unwrap().encode(&graph)),
+                    None => GraphId::Default,
+                };
+                let quad = Quad {
+                    subject: self.encode_cleaned_term(&subject),
+                    predicate: self.encode_cleaned_term(&predicate),
+                    object: self.encode_cleaned_term(&object),
+                    graph,
+                };
+                self.add_quad(quad);
             }
         }
     }
